@@ -268,7 +268,7 @@ package tls
 // initialized <==> e.Initialized, and what GetSession / GetTicket hand to the controller is what was stored.
 
 //@ func (*SessionTicketExtension).writeToUConn
-//@   property C19 C20
+//@   property C19 C20 C03
 //@   requires uc != nil && uc.HandshakeState.Hello != nil
 //@   modifies uc.HandshakeState.Hello.TicketSupported
 //@   ensures ret == nil && uc.HandshakeState.Hello.TicketSupported
@@ -322,7 +322,7 @@ package tls
 //@   pure
 
 //@ func (*UnimplementedPreSharedKeyExtension).writeToUConn
-//@   property C20
+//@   property C20 C03
 //@   panics when true
 //@   pure
 
@@ -360,7 +360,7 @@ package tls
 //@   ensures ret <==> e.Session != nil
 
 //@ func (*UtlsPreSharedKeyExtension).writeToUConn
-//@   property C19 C20
+//@   property C19 C20 C03
 //@   requires uc != nil && uc.HandshakeState.Hello != nil
 //@   modifies uc.HandshakeState.Hello.TicketSupported
 //@   ensures ret == nil && uc.HandshakeState.Hello.TicketSupported
@@ -463,7 +463,7 @@ package tls
 // asks the net.Conn for its address: both have unknown effects, hence no modifies clause and the assumption
 // `cache_is_passive` (consulting the cache does not replace the connection's hello object).
 //@ func (*FakePreSharedKeyExtension).writeToUConn
-//@   property C20 C19
+//@   property C20 C19 C03
 //@   requires e != nil && uc != nil && uc.Conn != nil && uc.config != nil && uc.HandshakeState.Hello != nil
 //@   ensures ok: ret == nil
 //@   ensures nocache: old(uc.config.ClientSessionCache) == nil ==> !called(Get, 0)
